@@ -8,4 +8,6 @@ PY=/usr/bin/python3; [ -x "$PY" ] || PY=python3
 (cd engine/driver && cargo +nightly build --release --offline)
 # first extraction compiles all external dependencies into .cache/target (slow when cold)
 "$PY" engine/facts.py default
+# the snapshot file format (C39): fuel-core-chain-config with its parquet feature
+"$PY" engine/facts.py parquet
 echo "setup ok"
